@@ -394,6 +394,7 @@ type Action struct {
 	Faults []sim.Fault   `json:"faults,omitempty"`
 	Fleet  *sim.FleetPlan `json:"fleet,omitempty"`
 	Ages   []int64       `json:"ages,omitempty"` // seconds
+	Seq    []Action      `json:"seq,omitempty"`  // "seq": sub-actions executed in order (recorded individually)
 }
 
 func (a Action) String() string {
@@ -468,6 +469,15 @@ func (a Action) String() string {
 // Apply executes an action. It returns the scan record for "scan", nil otherwise.
 // Actions naming objects that no longer exist are no-ops (reported through ok=false).
 func (w *World) Apply(a Action) (rec *ScanRecord, ok bool) {
+	if a.Op == "seq" {
+		ok = true
+		for _, sub := range a.Seq {
+			if r, _ := w.Apply(sub); r != nil {
+				rec = r
+			}
+		}
+		return
+	}
 	w.Log = append(w.Log, a)
 	ok = true
 	switch a.Op {
